@@ -21,10 +21,12 @@ EXPLANATION = (
     "round first_round (the jump-table obligation); callee-saved registers are restored, the stack is balanced, and only "
     "*state is written (assigns). The i386 ASSEMBLY ascon_permute (32-bit bit-sliced layout, arguments and locals on the "
     "stack) is lifted by tools/lift_i386.py and proved the same way: at every round label the even halves (ebx, ecx, ~edx, "
-    "esi, edi) and odd halves (five stack slots) interleave to ref_round of the previous cut."
+    "esi, edi) and odd halves (five stack slots) interleave to ref_round of the previous cut. The three RISC-V ASSEMBLY "
+    "permutations (RV64I; RV32I and RV32E in the bit-sliced layout, RV32E keeping the odd halves in the state memory) are "
+    "lifted by tools/lift_riscv.py and proved the same way."
 )
 ASSUMPTIONS = [
-    "x86-64 assembly: verified through tools/lift_x86_64.py (trusted: its instruction table for movq/xorq/andq/notq/rorq/pushq/popq/cmpq+jge/jmp/ret and the leaq-movslq-addq-jmp* jump-table idiom; System V argument registers, first_round arriving zero-extended in rsi; gas assembling the text it is given; only the Linux/ELF preprocessor variant of prologue/epilogue). i386 assembly: through tools/lift_i386.py (trusted: its table for movl/xorl/andl/notl/rorl/pushl/popl/cmpl+je/jmp/ret, static %esp tracking, cdecl). The other ten assembly backends are not covered",
+    "x86-64 assembly: verified through tools/lift_x86_64.py (trusted: its instruction table for movq/xorq/andq/notq/rorq/pushq/popq/cmpq+jge/jmp/ret and the leaq-movslq-addq-jmp* jump-table idiom; System V argument registers, first_round arriving zero-extended in rsi; gas assembling the text it is given; only the Linux/ELF preprocessor variant of prologue/epilogue). i386 assembly: through tools/lift_i386.py (trusted: its table for movl/xorl/andl/notl/rorl/pushl/popl/cmpl+je/jmp/ret, static %esp tracking, cdecl). RISC-V assembly: through tools/lift_riscv.py (trusted: its table for ld/lw/sd/sw/not/li/xor/or/and/xori/slli/srli/addi sp/beq/j/ret, static sp tracking, the psABI). The other seven assembly backends (ARM x4, AVR5, m68k, Xtensa) are not covered",
     "byte operations of the 32-bit bit-sliced backend: init, copy (and, thorough tier, add and overwrite) with symbolic offset/size; overwrite_with_zeroes and the extract family by ENUMERATION of constant (offset, size) pairs - all 861 pairs in the thorough tier, a seed-rotated sample of ~30 in the quick tier - because with symbolic offsets the extract family exhausts the solver and ascon_overwrite_with_zeroes hits the CBMC 6.11 union anomaly (state->S[i] = 0 followed by a read through W[] is reported non-zero for offset 12, size 19, although the same pair passes as constants and natively); add/overwrite of this backend are not in the quick tier",
     "start rounds above 12 are outside the contract (the 32-bit backend forms the pointer RC + 2*first_round, which is only defined up to 12)",
 ]
@@ -80,6 +82,23 @@ def i386_groups(props=("C08",), prefix="c08"):
                   note="cut points at the 13 round labels; %esp tracked statically; registers ebx, ecx, ~edx, esi, edi + stack slots")]
 
 
+RISCV = {"riscv64i": ("C64", 64, 64, []), "riscv32i": ("C32", 32, 32, []), "riscv32e": ("C32", 320, 32, ["--cpp=-D__riscv_32e=1"])}
+
+
+def riscv_groups(props=("C08",), prefix="c08"):
+    """RISC-V assembly permutations (RV64I: 64-bit layout; RV32I / RV32E: bit-sliced 32-bit layout), lifted by tools/lift_riscv.py."""
+    gs = []
+    for v, (cfg, tag, xlen, extra) in RISCV.items():
+        sig = ["--fn=ascon_permute:void:ascon_state_t * state,uint8_t first_round", "--fn=ascon_backend_free:void:ascon_state_t * state",
+               "--xlen=%d" % xlen] + extra
+        gs.append(Group("%s.permute.%s_asm" % (prefix, v), props, "harness/h_permute_asm.c", "h_permute_asm", [], cfg=cfg,
+                        enforce="ascon_permute", defs=["VERIF_ANY_FIRST_ROUND", 'VERIF_GHOST_HEADER="ghost_asm_riscv.h"', "VERIF_RISCV=%d" % tag],
+                        contracts=["contracts/c_permute_enforce.h"], lift=("src/core/ascon-asm-%s.S" % v, sig), timeout=1800,
+                        functions=["ascon_permute (%s assembly, lifted)" % v], expect_classes=["postcondition", "assigns", "assertion"],
+                        note="cut points at the 13 round labels; sp tracked statically"))
+    return gs
+
+
 def byteop_groups(cfg, props=("C08",), alias=True):
     gs = []
     for f in BYTEOPS:
@@ -130,6 +149,7 @@ def groups(tier):
         gs += permute_groups(cfg)
     gs += asm_groups()
     gs += i386_groups()
+    gs += riscv_groups()
     for cfg in (["C64"] if tier == "quick" else ["C64", "DX", "DEF"]):
         gs += byteop_groups(cfg)
     if tier == "thorough":
